@@ -232,6 +232,7 @@ func checkMain(args []string) int {
 	only := ""
 	noReplay := false
 	verbose := false
+	jobLines := false // one summary line per harness run on stderr
 	replayFile := ""
 	for i := 1; i < len(args); i++ {
 		switch args[i] {
@@ -248,6 +249,8 @@ func checkMain(args []string) int {
 			noReplay = true
 		case "-v":
 			verbose = true
+		case "-jobs":
+			jobLines = true
 		case "--replay", "-replay":
 			i++
 			replayFile = args[i]
@@ -317,6 +320,14 @@ func checkMain(args []string) int {
 			}
 			j.Opts[k] = v
 		}
+		if ms := os.Getenv("VF_MAXSECONDS"); ms != "" {
+			// probing aid: cap every run's time budget (an exhausted budget is INCONCLUSIVE, never a pass)
+			var v int64
+			fmt.Sscan(ms, &v)
+			if v > 0 {
+				j.Opts["maxseconds"] = v
+			}
+		}
 		for k, v := range j.Params {
 			// opt_<name>=v on a job line overrides the option for that job only
 			if strings.HasPrefix(k, "opt_") {
@@ -350,7 +361,7 @@ func checkMain(args []string) int {
 	sort.Strings(pkgs)
 	fmt.Printf("%s tier=%s: %d harness runs over packages %v on %d workers\n", prop, tier, len(jobs), pkgs, min(nw, len(jobs)))
 	var prog *os.File
-	if verbose {
+	if verbose || jobLines {
 		prog = os.Stderr
 	}
 	var results []*gosym.Result
@@ -613,7 +624,7 @@ func checkMain(args []string) int {
 			"replay_class":                  replayClass,
 			"engine_notes":                  notes,
 		},
-		"assumptions": sp.Assume,
+		"assumptions": assumptionsOf(sp),
 	}
 	evDir := filepath.Join(verifRoot, "evidence")
 	if d := os.Getenv("VF_EVIDENCE_DIR"); d != "" {
@@ -689,4 +700,16 @@ func replayMain(sp *PropSpec, file string) int {
 	}
 	fmt.Println("not reproduced")
 	return 0
+}
+
+// assumptionsOf lists what the verdict rests on: the harness's declared assumptions, its declared
+// stubs, and the trusted base common to every check. Never nil (the evidence schema wants an array).
+func assumptionsOf(sp *PropSpec) []string {
+	out := []string{}
+	out = append(out, sp.Assume...)
+	for _, st := range sp.Stubs {
+		out = append(out, "stub: "+st)
+	}
+	out = append(out, "trusted base: go/ssa lowering of the current source, the gosym encoder with the intrinsics listed under coverage.intrinsics_used, the SMT back ends listed under coverage.solver; bounds are the harness parameters listed per run, everything under coverage.outside_claim is outside the verdict")
+	return out
 }
